@@ -61,6 +61,9 @@ CHECKS['C07'] = dict(engine=SYMX, technique=MUT + '; concrete corpus runs',
 CHECKS['C11'] = dict(engine=SYMX, technique='bounded symbolic execution of Grid.filter and the generated filter functions on symbolic rows (own explorer, z3 decides every branch) against an independent reference evaluator; filters compiled by the real pipeline; replay',
    text='Filter texts (every and/or/not/parenthesis tree with <=3 (quick) / <=4 (thorough) leaves in two renderings, unparenthesised chains, 14 literal kinds x 6 operators, a->b and a->b->c paths) are compiled by the real parse_filter -> source generation -> exec pipeline; Grid.filter then runs on rows whose tag presence bits, value kinds (symbolic selector over 29 values) and one numeric value (unbounded z3 Int) are symbolic, with symbolic limit. The rows returned (identity and order), carried version/metadata/columns and the untouched source grid are compared with an independent evaluator of the filter AST.',
    note='Reference semantics documented in the evidence (comparisons between a quantity and a unit-less number, orderings of booleans and of different text kinds are left unspecified); row ids are strings; literal text decoding belongs to C12.', ref='5 C11')
+CHECKS['C12'] = dict(engine=SYMX, technique='bounded symbolic execution of the filter text -> AST -> generated-source path (real filter grammar through the symbolic pyparsing interpreter, real parse actions, real source generation) with one symbolic code point per position; syntactic safety check of the generated source; canary filters under sys.addaudithook; replay',
+   text='For 17 filters covering every literal and identifier position, one unconstrained symbolic code point replaces / is inserted at every position; parse_filter and _generate_filter_in_python run symbolically; every path either rejects the text with a parse error or yields a source whose return expression contains only hszinc\'s own helper names, parameters, constants, constant subscripts and lists of constants (so no name or call taken from the filter text). 42 canary filters (builtins, dunder names, quote/backslash breakouts) are evaluated concretely under an audit hook: no canary effect, no process/file/socket event, generated sources safe, grid and module globals unchanged.',
+   note='The generated text is checked after concretising symbolic characters (exhaustive for small domains, sampled representatives otherwise, counted); safety is syntactic (vf/c12audit.py).', ref='5 C12')
 NA_REASON = {}
 
 def main():
